@@ -44,15 +44,16 @@ where
         let target = dataset.as_single_targets();
 
         let (intercept, y) = compute_intercept(self.with_intercept(), target);
-        let (hyperplane, duality_gap, n_steps) = coordinate_descent(
+        let (hyperplane, intercept_shift, duality_gap, n_steps) = coordinate_descent_with_intercept(
             dataset.records().view(),
             y.view(),
             self.tolerance(),
             self.max_iterations(),
             self.l1_ratio(),
             self.penalty(),
+            self.with_intercept(),
         );
-        let intercept = intercept.into_scalar();
+        let intercept = intercept.into_scalar() + intercept_shift;
 
         let y_est = dataset.records().dot(&hyperplane) + intercept;
 
@@ -91,14 +92,17 @@ where
         let targets = dataset.targets().as_multi_targets();
         let (intercept, y) = compute_intercept(self.with_intercept(), targets);
 
-        let (hyperplane, duality_gap, n_steps) = block_coordinate_descent(
-            dataset.records().view(),
-            y.view(),
-            self.tolerance(),
-            self.max_iterations(),
-            self.l1_ratio(),
-            self.penalty(),
-        );
+        let (hyperplane, intercept_shift, duality_gap, n_steps) =
+            block_coordinate_descent_with_intercept(
+                dataset.records().view(),
+                y.view(),
+                self.tolerance(),
+                self.max_iterations(),
+                self.l1_ratio(),
+                self.penalty(),
+                self.with_intercept(),
+            );
+        let intercept = intercept + intercept_shift;
 
         let y_est = dataset.records().dot(&hyperplane) + &intercept;
 
@@ -263,6 +267,7 @@ impl<F: Float> MultiTaskElasticNet<F> {
     }
 }
 
+#[cfg(test)]
 fn coordinate_descent<'a, F: Float>(
     x: ArrayView2<'a, F>,
     y: ArrayView1<'a, F>,
@@ -271,7 +276,28 @@ fn coordinate_descent<'a, F: Float>(
     l1_ratio: F,
     penalty: F,
 ) -> (Array1<F>, F, u32) {
+    let (w, _, gap, n_steps) =
+        coordinate_descent_with_intercept(x, y, tol, max_steps, l1_ratio, penalty, false);
+    (w, gap, n_steps)
+}
+
+/// Cyclic coordinate descent on `y` (already centered when an intercept is fitted). When
+/// `fit_intercept` is set the intercept is one more, unpenalized, coordinate: after every sweep
+/// the mean of the residual is moved into the intercept, so that the returned point is optimal
+/// jointly in the coefficients and the intercept whatever the offsets of the feature columns.
+/// Returns the coefficients, the amount the intercept moved away from the mean of the targets,
+/// the duality gap and the number of sweeps.
+fn coordinate_descent_with_intercept<'a, F: Float>(
+    x: ArrayView2<'a, F>,
+    y: ArrayView1<'a, F>,
+    tol: F,
+    max_steps: u32,
+    l1_ratio: F,
+    penalty: F,
+    fit_intercept: bool,
+) -> (Array1<F>, F, F, u32) {
     let n_samples = F::cast(x.nrows());
+    let mut intercept_shift = F::zero();
     let n_features = x.ncols();
     // the parameters of the model
     let mut w = Array1::<F>::zeros(n_features);
@@ -305,6 +331,13 @@ fn coordinate_descent<'a, F: Float>(
             d_w_max = F::max(d_w_max, d_w_j);
             w_max = F::max(w_max, w[j].abs());
         }
+        if fit_intercept {
+            // exact minimization over the intercept: the residuals sum to zero afterwards, which
+            // also keeps `a * r` dual feasible, i.e. the duality gap is the gap of the joint problem
+            let r_mean = r.sum() / n_samples;
+            intercept_shift += r_mean;
+            r.mapv_inplace(|r_i| r_i - r_mean);
+        }
         n_steps += 1;
 
         if n_steps == max_steps - 1 || abs_diff_eq!(w_max, F::zero()) || d_w_max / w_max < d_w_tol {
@@ -316,9 +349,10 @@ fn coordinate_descent<'a, F: Float>(
             }
         }
     }
-    (w, gap, n_steps)
+    (w, intercept_shift, gap, n_steps)
 }
 
+#[cfg(test)]
 fn block_coordinate_descent<'a, F: Float>(
     x: ArrayView2<'a, F>,
     y: ArrayView2<'a, F>,
@@ -327,7 +361,23 @@ fn block_coordinate_descent<'a, F: Float>(
     l1_ratio: F,
     penalty: F,
 ) -> (Array2<F>, F, u32) {
+    let (w, _, gap, n_steps) =
+        block_coordinate_descent_with_intercept(x, y, tol, max_steps, l1_ratio, penalty, false);
+    (w, gap, n_steps)
+}
+
+/// Multi-task counterpart of `coordinate_descent_with_intercept`, one intercept per task.
+fn block_coordinate_descent_with_intercept<'a, F: Float>(
+    x: ArrayView2<'a, F>,
+    y: ArrayView2<'a, F>,
+    tol: F,
+    max_steps: u32,
+    l1_ratio: F,
+    penalty: F,
+    fit_intercept: bool,
+) -> (Array2<F>, Array1<F>, F, u32) {
     let n_samples = F::cast(x.nrows());
+    let mut intercept_shift = Array1::<F>::zeros(y.ncols());
     let n_features = x.ncols();
     let n_tasks = y.ncols();
     // the parameters of the model
@@ -380,6 +430,11 @@ fn block_coordinate_descent<'a, F: Float>(
             d_w_max = F::max(d_w_max, d_w_j);
             w_max = F::max(w_max, norm_w_j);
         }
+        if fit_intercept {
+            let r_mean = r.sum_axis(Axis(0)) / n_samples;
+            intercept_shift += &r_mean;
+            r -= &r_mean;
+        }
         n_steps += 1;
 
         if n_steps == max_steps - 1 || abs_diff_eq!(w_max, F::zero()) || d_w_max / w_max < d_w_tol {
@@ -392,7 +447,7 @@ fn block_coordinate_descent<'a, F: Float>(
         }
     }
 
-    (w, gap, n_steps)
+    (w, intercept_shift, gap, n_steps)
 }
 
 // Algorithm based off of this post: https://math.stackexchange.com/questions/2045579/deriving-block-soft-threshold-from-l-2-norm-prox-operator
